@@ -69,4 +69,96 @@ theorem restart_after_frozen_history (s : St ι) (ws : List (Write ι)) (later :
   have h := (first_refusal_freezes_storage s ws later hf hw).1
   unfold restart; rw [h]
 
+/-! ### whole histories with arbitrary storage answers -/
+
+/-- a history: each command with its writes and the storage callback's answer -/
+abbrev runH (s : St ι) (hist : List (List (Write ι) × Bool)) : St ι :=
+  hist.foldl (fun s (c : List (Write ι) × Bool) => command s c.1 c.2) s
+
+/-- an accepted commit is the only thing that counts as a store, and it is the only way storage changes -/
+theorem disk_changes_only_with_store (s : St ι) (ws : List (Write ι)) (ok : Bool)
+    (h : (command s ws ok).stores = s.stores) : (command s ws ok).disk = s.disk := by
+  obtain ⟨_, b2, _, b4⟩ := Props.C03.body_spec s ws
+  unfold command at *
+  by_cases hf : s.failure
+  · simp [hf]
+  · simp only [hf, Bool.false_eq_true, if_false] at *
+    generalize body s ws = s1 at *
+    by_cases hu : s1.updateNV
+    · cases ok
+      · simp [hu, b2]
+      · simp [hu, b4] at h
+    · simp [hu, b2]
+
+/-- a store happens only for a command with a real persistent change, outside failure mode, with storage accepting -/
+theorem store_needs_write_and_ok (s : St ι) (ws : List (Write ι)) (ok : Bool)
+    (h : (command s ws ok).stores ≠ s.stores) : hasNvWrite ws = true ∧ ok = true ∧ s.failure = false := by
+  obtain ⟨b1, _, _, b4⟩ := Props.C03.body_spec s ws
+  unfold command at h
+  by_cases hf : s.failure
+  · simp [hf] at h
+  · simp only [hf, Bool.false_eq_true, if_false] at h
+    generalize body s ws = s1 at *
+    by_cases hu : s1.updateNV
+    · cases ok
+      · simp [hu, b4] at h
+      · exact ⟨by rw [← b1, hu], rfl, by simpa using hf⟩
+    · simp [hu, b4] at h
+
+/-- a command with a persistent change that storage accepts is durable at its end and the TPM is not in failure mode -/
+theorem accepted_commit_is_durable (s : St ι) (ws : List (Write ι)) (hf : s.failure = false) (hw : hasNvWrite ws = true) :
+    (command s ws true).disk = some (command s ws true).nv ∧ (command s ws true).failure = false := by
+  obtain ⟨b1, _, b3, _⟩ := Props.C03.body_spec s ws
+  unfold command
+  simp only [hf, Bool.false_eq_true, if_false]
+  generalize body s ws = s1 at *
+  rw [hw] at b1
+  simp [b1, b3, hf]
+
+/-- once storage holds an image it always holds one: a later restart never finds storage empty -/
+theorem disk_stays_some (hist : List (List (Write ι) × Bool)) (s : St ι) (h : s.disk.isSome = true) :
+    (runH s hist).disk.isSome = true := by
+  induction hist generalizing s with
+  | nil => exact h
+  | cons c rest ih =>
+    refine ih (command s c.1 c.2) ?_
+    rcases disk_is_boundary_image s c.1 c.2 with hd | hd
+    · rw [hd]; exact h
+    · rw [hd]; rfl
+
+/-- **storage holds a consistent earlier state after ANY history and ANY pattern of storage refusals**: what storage
+    holds is either what it held at the start or the TPM's image at the end of some prefix of the history (a command
+    boundary) — never an image from the middle of a command, never a mixture -/
+theorem disk_is_prefix_image (hist : List (List (Write ι) × Bool)) (s : St ι) :
+    (runH s hist).disk = s.disk ∨ ∃ k, k ≤ hist.length ∧ (runH s hist).disk = some (runH s (hist.take k)).nv := by
+  induction hist generalizing s with
+  | nil => left; rfl
+  | cons c rest ih =>
+    rcases ih (command s c.1 c.2) with h | ⟨k, hk, h⟩
+    · rcases disk_is_boundary_image s c.1 c.2 with hd | hd
+      · left; simp only [runH, List.foldl] at h ⊢; rw [h, hd]
+      · right; refine ⟨1, by simp, ?_⟩
+        simp only [runH, List.foldl, List.take_succ_cons, List.take_zero] at h ⊢
+        rw [h, hd]
+    · right; refine ⟨k + 1, by simp; omega, ?_⟩
+      simp only [runH, List.foldl, List.take_succ_cons] at h ⊢
+      exact h
+
+/-- the number of accepted stores never decreases -/
+theorem stores_monotone (s : St ι) (ws : List (Write ι)) (ok : Bool) : s.stores ≤ (command s ws ok).stores := by
+  obtain ⟨_, _, _, b4⟩ := Props.C03.body_spec s ws
+  unfold command
+  by_cases hf : s.failure
+  · simp [hf]
+  · simp only [hf, Bool.false_eq_true, if_false]
+    generalize body s ws = s1 at *
+    by_cases hu : s1.updateNV
+    · cases ok <;> simp [hu, b4]
+    · simp [hu, b4]
+
+/-! non-vacuity -/
+example : (runH ({ nv := 0, disk := some 0 } : St Nat) [([.nvWrite (· + 1)], true), ([.nvWrite (· + 5)], false), ([.nvWrite (· + 7)], true)]).disk = some 1 := by
+  decide
+example : (runH ({ nv := 0, disk := some 0 } : St Nat) [([.clockWrite (· + 1)], true)]).disk = some 0 := by decide
+
 end TpmVerif.Props.C07
